@@ -144,9 +144,10 @@ class PathCtx:
     def event(self, kind, **kw):
         self.events.append(Event(kind, **kw))
 
-    def oblige(self, name, cond):
-        """a side obligation (e.g. numpy slice bounds in range) that must hold at this point of the path"""
-        self.side.append((name, cond, list(self.pc)))
+    def oblige(self, name, cond, soft=False):
+        """a side obligation (e.g. numpy slice bounds in range) that must hold at this point of the path;
+        soft = a limit of the model rather than of the code: if it does not hold the path is undecided, not violated"""
+        self.side.append((('soft:' if soft else '') + name, cond, list(self.pc) ))
 
 
 def explore(run, max_paths=4000):
@@ -1226,6 +1227,8 @@ class Interp:
             try:
                 return self.import_module(sub)
             except Unsupported:
+                if obj.name in self.ext_modules and not isinstance(self.ext_modules[obj.name], str):
+                    raise Unsupported(f'{obj.name}.{name} is not modelled')
                 return MISSING
         if isinstance(obj, VFunc):
             if name == '__name__':
@@ -1261,9 +1264,7 @@ class Interp:
             if sa is not MISSING and not isinstance(sa, Builtin):
                 self.call(sa, [obj, name, v], {})
                 return
-            self.write(obj.fields, f'attribute {name!r}')
-            if obj.old and not obj.fields.old:
-                self.write(obj, f'attribute {name!r}')
+            self.write(obj.fields, f'attribute {name!r}', key=name)
             obj.fields.d[name] = v
             obj.fields.maybe.pop(name, None)
             return
@@ -1296,15 +1297,25 @@ class Interp:
             self.resolve_maybe(obj.fields, name)
             if name not in obj.fields.d:
                 self.throw('AttributeError', name)
-            self.write(obj.fields, f'del attribute {name!r}')
+            self.write(obj.fields, f'del attribute {name!r}', key=name)
             del obj.fields.d[name]
             return
         raise Unsupported('delattr')
 
-    def write(self, target, what):
-        """record a write to a pre-existing (old) object: a frame event"""
+    def write(self, target, what, key=None):
+        """record a write to a pre-existing (old) object: a frame event.  Writes to instance attributes that are not part
+        of the object's public state (its `_params`, meta, visual) are recorded as `cache` writes: they cannot by themselves
+        break "inputs are left unchanged" and are judged by their observable effect instead"""
         if getattr(target, 'old', False):
-            self.ctx.event('frame', target=self.describe(target), where=what,
+            kind = 'frame'
+            owner = getattr(target, 'owner', None)
+            if owner is not None and key is not None and isinstance(owner, VObj) and not owner.static:
+                pv, _ = owner.cls.lookup('_params')
+                if pv is not MISSING and isinstance(pv, tuple):
+                    public = set(pv) | {'meta', 'visual'}
+                    if key not in public:
+                        kind = 'cache_write'
+            self.ctx.event(kind, target=self.describe(target), where=what,
                            static=getattr(target, 'static', False), pc=list(self.ctx.pc))
 
     def describe(self, target):
